@@ -405,8 +405,11 @@ class Circuit:
                         self._blocks[inp.name].oconnections.add(blk)
 
     def finalize(self) -> None:
-        """A wrapper for _finalize()."""
+        """Resolve block references by name and finalize the interconnections."""
         if not self._finalized:
+            # references by name must be resolved before the circuit is frozen,
+            # because resolving may create new blocks (e.g. '_ctrl')
+            self._resolver.resolve()
             self._finalize()
             self._finalized = True
 
